@@ -1202,6 +1202,9 @@ func runMarathon(a *App, mon *Mon, seed int64, variant int) {
 			}
 		}
 		s.block()
+		if b >= 253 && b <= 256 {
+			s.r.Probe() // queries and the genesis scenario while the batch counters pass 255 / 256
+		}
 	}
 	s.ctl("kill", id, cons)
 	s.modCtl("kill", mod, s.A.ModCons)
